@@ -95,7 +95,7 @@ var c01Queries = []c01Query{
 			return expRow{[]octosql.Value{s}, zzverif.And(gtTrue(r[1], 0), gtTrue(s, 2))}
 		})
 	}},
-	/* 8 */ {sql: "WITH x AS (SELECT t.a FROM t.sym t WHERE t.a > 0) SELECT x.a FROM x x", expected: func(rows [][]octosql.Value) []expRow {
+	/* 8 */ {sql: "WITH x AS (SELECT t.a AS a FROM t.sym t WHERE t.a > 0) SELECT a FROM x", expected: func(rows [][]octosql.Value) []expRow {
 		return all(rows, func(r []octosql.Value) expRow { return expRow{[]octosql.Value{r[0]}, gtTrue(r[0], 0)} })
 	}},
 	/* 9 */ {sql: "SELECT t.a FROM t.sym t WHERE NOT (t.a > 1)", expected: func(rows [][]octosql.Value) []expRow {
